@@ -17,6 +17,7 @@ import (
 // every call; the race detector (log collected by the driver) watches the pooled Response and
 // error channel. The yield hook widens the hand-off window by up to 2 ms (real time).
 func runRace(e *ev.Env) {
+	defer recordMaxRSS(e)
 	const workers = 32
 	const perWorker = 30
 	e.Cases("race", e.N(3, 20), func(c *ev.Case) {
